@@ -98,6 +98,46 @@ for dt, vals in INTS.items():
                     {"dtype": dt.__name__, "array": list(map(int, combo))}, lambda arr=arr: check(arr))
 
 
+# the tolerance passed to compress() holds at every container level (data, column, category, block, file)
+from biotite.structure.io.pdbx.bcif import BinaryCIFBlock, BinaryCIFCategory, BinaryCIFColumn, BinaryCIFFile
+
+
+def container_case(level, tol):
+    vals = np.array([1.0000001, -0.3333333333, 2.718281828459, 1234.56789012, 0.5] * 8, dtype=np.float64)
+    col = BinaryCIFColumn(BinaryCIFData(vals))
+    cat = BinaryCIFCategory({"x": col})
+    block = BinaryCIFBlock({"cat": cat})
+    fil = BinaryCIFFile({"blk": block})
+    obj = {"data": BinaryCIFData(vals), "column": col, "category": cat, "block": block, "file": fil}[level]
+    out = compress(obj, float_tolerance=tol)
+    if level == "file":
+        import io as _io
+        st = _io.BytesIO()
+        out.write(st)
+        st.seek(0)
+        out = BinaryCIFFile.read(st)
+        back = out["blk"]["cat"]["x"].as_array()
+    elif level == "block":
+        back = BinaryCIFBlock.deserialize(out.serialize())["cat"]["x"].as_array()
+    elif level == "category":
+        back = BinaryCIFCategory.deserialize(out.serialize())["x"].as_array()
+    elif level == "column":
+        back = BinaryCIFColumn.deserialize(out.serialize()).as_array()
+    else:
+        back = BinaryCIFData.deserialize(out.serialize()).array
+    err = np.abs(np.asarray(back, dtype=np.float64) - vals)
+    if np.any(err > tol * np.abs(vals) * (1 + 1e-9) + 1e-300):
+        k = int(np.argmax(err / np.abs(vals)))
+        return f"compress({level}, float_tolerance={tol}): {vals[k]!r} read back as {float(back[k])!r} (relative error {err[k] / abs(vals[k]):.3g})"
+    return None
+
+
+for level in ("data", "column", "category", "block", "file"):
+    for tol in (1e-3, 1e-6, 1e-9, 1e-12):
+        R.check("compress() round trip within tolerance; non-finite kept or rejected", f"compress {level} tol={tol}",
+                {"level": level, "tolerance": tol}, lambda level=level, tol=tol: container_case(level, tol))
+
+
 # ---- (b) the encodings applied directly -----------------------------------------------------
 
 from biotite.structure.io.pdbx import encoding as E
